@@ -26,7 +26,7 @@ def h12(s):
     return hashlib.sha256(s.encode()).hexdigest()[:12]
 
 
-def _run_shard(jobdir, idx, lines, exe, fmode, cfgname, san, keep):
+def _run_shard(jobdir, idx, lines, exe, fmode, cfgname, san, keep, l2=False):
     sdir = os.path.join(jobdir, 'shard%d' % idx)
     os.makedirs(sdir, exist_ok=True)
     stimf = os.path.join(sdir, 'stim.txt')
@@ -39,6 +39,9 @@ def _run_shard(jobdir, idx, lines, exe, fmode, cfgname, san, keep):
     viol, hits, end = P.validate_trace(tracef, sdir, 't')
     t2 = time.time()
     sigs, nlines, violations, ops = P.analyse(tracef, viol, hits, cfgname)
+    l2_calls, l2_drift = 0, []
+    if l2:
+        l2_calls, l2_drift = P.validate_impl(tracef, sdir, 'l2')
     skipped = 0
     sample = []
     with open(tracef) as f:
@@ -56,7 +59,8 @@ def _run_shard(jobdir, idx, lines, exe, fmode, cfgname, san, keep):
         v['stimulus'] = stim_by_id.get(v.get('id'))
     res = dict(lines=end, ops=ops, restarts=restarts, skipped=skipped, sample=sample,
                sigs={p: sorted(h12(s) for s in sigs[p]) for p in sigs if sigs[p]},
-               nlines=nlines, violations=violations, t_driver=t1 - t0, t_tlc=t2 - t1)
+               nlines=nlines, violations=violations, t_driver=t1 - t0, t_tlc=t2 - t1, l2_calls=l2_calls, l2_drift=l2_drift[:20],
+               l2_drift_n=len(l2_drift))
     if not keep and not violations:
         shutil.rmtree(sdir, ignore_errors=True)
     else:
@@ -100,14 +104,14 @@ def run_driver(exe, stimfile, tracefile, fmode, san=False):
     return restarts
 
 
-def run_job(mc, drv, fmode=0, max_stims=None, seed=0, shard_size=None, keep=False, stim_file=None, label=None):
+def run_job(mc, drv, fmode=0, max_stims=None, seed=0, shard_size=None, keep=False, stim_file=None, label=None, l2=False):
     """Returns the merged result dict of one job (cached)."""
     if stim_file:
         st = dict(path=stim_file, key=P.file_sha(stim_file), generated=0, distinct=0, n=sum(1 for _ in open(stim_file)), consts={})
     else:
         st = P.gen_stimuli(mc)
     d = P.build_driver(drv)
-    key = P.sha('job', st['key'], d['key'], fmode, max_stims, seed, P.spec_sha(), P.file_sha(os.path.join(P.ROOT, 'lib', 'pipeline.py')))
+    key = P.sha('job', st['key'], d['key'], fmode, max_stims, seed, l2, P.spec_sha(), P.file_sha(os.path.join(P.ROOT, 'lib', 'pipeline.py')))
     jobdir = os.path.join(P.CACHE, 'job', key)
     resf = os.path.join(jobdir, 'result.json')
     with P.Lock(jobdir):
@@ -148,14 +152,15 @@ def run_job(mc, drv, fmode=0, max_stims=None, seed=0, shard_size=None, keep=Fals
         nshards = max(1, (len(lines) + shard_size - 1) // shard_size)
         per = (len(lines) + nshards - 1) // nshards
         shards = [lines[i:i + per] for i in range(0, len(lines), per)]
-        futs = [pool().submit(_run_shard, jobdir, i, sh, d['exe'], fmode, d['name'], d['conf']['san'], keep)
+        futs = [pool().submit(_run_shard, jobdir, i, sh, d['exe'], fmode, d['name'], d['conf']['san'], keep, l2)
                 for i, sh in enumerate(shards)]
         merged = dict(lines=0, ops=0, restarts=0, skipped=0, sample=[], sigs={}, nlines={}, violations=[],
-                      t_driver=0.0, t_tlc=0.0)
+                      t_driver=0.0, t_tlc=0.0, l2_calls=0, l2_drift_n=0, l2_drift=[])
         for f in futs:
             r = f.result()
-            for k in ('lines', 'ops', 'restarts', 'skipped', 't_driver', 't_tlc'):
+            for k in ('lines', 'ops', 'restarts', 'skipped', 't_driver', 't_tlc', 'l2_calls', 'l2_drift_n'):
                 merged[k] += r[k]
+            merged['l2_drift'] += r['l2_drift'][:5]
             if len(merged['sample']) < 4:
                 merged['sample'] += r['sample'][:2]
             for p, s in r['sigs'].items():
